@@ -201,6 +201,20 @@ Definition first_occ (fs : list (string * Z)) : list (string * Z) :=
   fold_left (fun l fq => if existsb (fun g => String.eqb (fst g) (fst fq)) l then l else (l ++ [fq])%list) fs [].
 Definition ss_eqb (a b : string * string) : bool := String.eqb (fst a) (fst b) && String.eqb (snd a) (snd b).
 
+(* a survivor [o] publishes the will of every session the failed node hosted that it still lists,
+   under the session's mount point, and delivers it to its own matching subscribers *)
+Definition leave_demands (st : ost) (o : nat) (wills : list (osess * publish)) (obs : list eobs) : list nat :=
+  (
+         chk (perm_eqb (fun a b : string * string => String.eqb (fst a) (fst b) && String.eqb (snd a) (snd b))
+                (flat_map (fun ob => match ob with Appended n t p _ _ => if Nat.eqb n o then [(t, p)] else [] | _ => [] end) obs)
+                (map (fun zw => (prefix_mp (omp (fst zw)) (p_topic (snd zw)), p_payload (snd zw))) wills)) 96
+         ++ chk (negb (forallb (fun zw => topic_ok (levels (p_topic (snd zw)))) wills) ||
+                 perm_eqb pub6_eqb (publishes obs)
+                   (flat_map (fun zw => flat_map (fun x => if oalive x && negb (obadw x) && String.eqb (omp x) (omp (fst zw)) && Nat.eqb (onode x) o then
+                                                             flat_map (fun fq => if mmatch (levels (fst fq)) (levels (p_topic (snd zw)))
+                                                                                 then [(oc x, p_topic (snd zw), p_payload (snd zw), snd fq, p_retain (snd zw), false)] else []) (ofil x)
+                                                           else []) (t_sess st)) wills)) 97)%list.
+
 Definition ostep (st : ost) (s : eop * list eobs) : ost * list nat :=
   let '(o, obs) := s in
   let closes := chk (forallb (fun c => existsb (String.eqb c) (cause_of o)) (closed_list obs)) 1 in
@@ -344,17 +358,22 @@ Definition ostep (st : ost) (s : eop * list eobs) : ost * list nat :=
       let st2 := dirty_from (set_left (set_down st1 (d :: t_down st)) ((o, d) :: t_left st)) o in
       if negb told || negb (knows_all st o) || failing st o then (set_unsure st2 true, [])
       else
-        (st2,
-         (* the survivor publishes the will of every session the failed node hosted, under the session's mount point *)
-         chk (perm_eqb (fun a b : string * string => String.eqb (fst a) (fst b) && String.eqb (snd a) (snd b))
-                (flat_map (fun ob => match ob with Appended n t p _ _ => if Nat.eqb n o then [(t, p)] else [] | _ => [] end) obs)
-                (map (fun zw => (prefix_mp (omp (fst zw)) (p_topic (snd zw)), p_payload (snd zw))) wills)) 96
-         ++ chk (negb (forallb (fun zw => topic_ok (levels (p_topic (snd zw)))) wills) ||
-                 perm_eqb pub6_eqb (publishes obs)
-                   (flat_map (fun zw => flat_map (fun x => if oalive x && negb (obadw x) && String.eqb (omp x) (omp (fst zw)) && Nat.eqb (onode x) o then
-                                                             flat_map (fun fq => if mmatch (levels (fst fq)) (levels (p_topic (snd zw)))
-                                                                                 then [(oc x, p_topic (snd zw), p_payload (snd zw), snd fq, p_retain (snd zw), false)] else []) (ofil x)
-                                                           else []) (t_sess st)) wills)) 97)%list
+        (st2, leave_demands st o wills obs)
+    | EPeerNotice o d clk =>
+      (* NotifyGossipLeave up to its return: subscriptions of the failed node removed, wills published;
+         the session records stay (and stay listed) until a survivor's delayed removal *)
+      let told := negb (existsb (fun p => pair_eqb p (d, o)) (t_dirty st)) in
+      let lost := filter (fun z => oalive z && negb (otomb z) && Nat.eqb (onode z) d) (t_sess st) in
+      let wills := flat_map (fun z => match owill z with Some w => [(z, w)] | None => [] end) lost in
+      let st1 := set_sess st (map (fun z => if oalive z && negb (otomb z) && Nat.eqb (onode z) d then s_fil z [] else z) (t_sess st)) in
+      let st2 := dirty_from (set_left (set_down st1 (d :: t_down st)) ((1000 + o, d)%nat :: t_left st)) o in
+      (* the only earlier failures noticed are of the same node, and none of those survivors has removed the records yet *)
+      let only_notices := forallb (fun p => Nat.leb 1000 (fst p) && Nat.eqb (snd p) d) (t_left st) in
+      if negb told || negb (told_all st o) || negb only_notices || failing st o then (set_unsure st2 true, [])
+      else (st2, leave_demands st o wills obs)
+    | EPeerReap o d clk =>
+      let st1 := set_sess st (map (fun z => if oalive z && Nat.eqb (onode z) d then s_tomb z true else z) (t_sess st)) in
+      (dirty_from (set_left st1 ((o, d) :: filter (fun p => negb (pair_eqb p ((1000 + o)%nat, d))) (t_left st))) o, chk (is_nil obs) 80)
     | EUnreachable ps => (set_down st ps, [])
     | EFailAppend n k => (set_failn st ((n, k) :: filter (fun p => negb (Nat.eqb (fst p) n)) (t_fail st)), [])
     | ECheck n =>
